@@ -196,6 +196,36 @@ def s3_collectors(src_text, stats):
     return "".join(out)
 
 
+def s5_wal_threshold(src_text, stats):
+    """S5: the stamp threshold that recover_with_wal() hands to WalRotator::recover_entries_after is computed
+    inside an async fn after an await; its statements are copied into a synchronous function of the
+    RecoveredState. Fails closed if the computation touches anything but `recovered`."""
+    f = extract_fn(src_text, "recover_with_wal")
+    if f is None:
+        die("S5: fn recover_with_wal not found")
+    a = "let mut recovered = self.recover().await?;"
+    b = ".recover_entries_after("
+    if f.count(a) != 1 or f.count(b) != 1:
+        die("S5: recover_with_wal no longer has the expected shape")
+    region = f[f.index(a) + len(a):f.index(b)]
+    cut = region.rfind("let ")
+    if cut < 0:
+        die("S5: no `let` before recover_entries_after")
+    region = region[:cut]
+    i = f.index(b) + len(b)
+    depth, j = 1, i
+    while depth > 0:
+        depth += {"(": 1, ")": -1}.get(f[j], 0)
+        j += 1
+    arg = f[i:j - 1]
+    if re.search(r"\bself\b|\.await|wal_rotator", region + arg):
+        die("S5: threshold computation uses more than `recovered`")
+    stats["s5"] += 1
+    return ("\n// ---- S5: generated by /verif/stage/stage.py (statements copied from recover_with_wal) ----\n"
+            "#[allow(dead_code, unused_variables, clippy::all)]\npub fn verif_wal_replay_threshold(recovered: &RecoveredState) -> u64 {"
+            + region + "\n    (" + arg + ") as u64\n}\n")
+
+
 def write_if_changed(path, data):
     if os.path.exists(path):
         with open(path, "rb") as f:
@@ -210,7 +240,7 @@ def write_if_changed(path, data):
 def main():
     repo, dest = sys.argv[1], sys.argv[2]
     model_path = os.path.abspath(os.path.join(os.path.dirname(__file__), "..", "models", COLL))
-    stats = {"s1": 0, "s2": 0, "s3": 0, "s4": 0, "files": 0, "files_substituted": 0, "rewritten": 0}
+    stats = {"s1": 0, "s2": 0, "s3": 0, "s4": 0, "s5": 0, "files": 0, "files_substituted": 0, "rewritten": 0}
     wanted = set()
     h = hashlib.sha256()
     for root, dirs, files in os.walk(os.path.join(repo, "src")):
@@ -229,6 +259,8 @@ def main():
                 text = subst_memchr(text, stats)
                 if rel == "src/production/connection_optimized.rs":
                     text += s3_collectors(text, stats)
+                if rel == "src/streaming/recovery.rs":
+                    text += s5_wal_threshold(text, stats)
                 if rel == "src/production/mod.rs":
                     text += ("\n// S3: generated re-exports\npub use connection_optimized::{verif_batch_admitted, verif_collect_get_keys, "
                              "verif_collect_set_pairs, verif_fast_get_parse, verif_fast_set_parse};\n")
